@@ -37,6 +37,35 @@ pub open spec fn write_range<T>(s: Seq<T>, start: int, vals: Seq<T>) -> Seq<T> {
     Seq::new(s.len(), |i: int| if start <= i < start + vals.len() { vals[i - start] } else { s[i] })
 }
 pub open spec fn max_nat(a: int, b: int) -> int { if a >= b { a } else { b } }
+// ideal removal (C08): every listed position is reset to `d`
+pub open spec fn reset_all<T>(s: Seq<T>, removed: Seq<usize>, d: T) -> Seq<T> {
+    Seq::new(s.len(), |i: int| if removed.contains(i as usize) { d } else { s[i] })
+}
+// positions at or above the high-water mark were never written: default leaf, flag 0
+pub open spec fn tail_untouched<T>(leaves: Seq<T>, flags: Seq<u8>, mark: int, d: T) -> bool {
+    forall|i: int| mark <= i < leaves.len() ==> #[trigger] leaves[i] == d && flags[i] == 0u8
+}
+pub proof fn lemma_reset_all_step<T>(s: Seq<T>, removed: Seq<usize>, k: int, d: T)
+    requires 0 <= k < removed.len(), removed[k] < s.len(), s.len() <= usize::MAX
+    ensures reset_all(s, removed.take(k + 1), d) =~= reset_all(s, removed.take(k), d).update(removed[k] as int, d)
+{
+    let a = reset_all(s, removed.take(k + 1), d);
+    let b = reset_all(s, removed.take(k), d).update(removed[k] as int, d);
+    assert(a.len() == s.len() && b.len() == s.len());
+    assert forall|i: int| 0 <= i < s.len() implies a[i] == b[i] by {
+        let t1 = removed.take(k + 1); let t0 = removed.take(k);
+        assert((i as usize) as int == i);
+        if t0.contains(i as usize) {
+            let w = choose|w: int| 0 <= w < t0.len() && t0[w] == i as usize;
+            assert(t1[w] == i as usize);
+        }
+        if t1.contains(i as usize) {
+            let w = choose|w: int| 0 <= w < t1.len() && t1[w] == i as usize;
+            if w < k { assert(t0[w] == i as usize); } else { assert(removed[k] == i as usize); }
+        }
+        if i == removed[k] as int { assert(t1[k] == removed[k]); }
+    }
+}
 
 // a membership path: sibling value and direction bit (0 = current node is the left child), leaf upwards
 pub open spec fn fold_path<H: Hasher>(acc: H::Fr, path: Seq<(H::Fr, u8)>) -> H::Fr
